@@ -97,6 +97,14 @@ def run(ctx):
         elif pat == "tiny": wants = [rng.choice([1, 2, 3, 7]) for _ in range(5)]
         else: wants = [rng.choice([1, B0 - 1, B0, B0 + 5, 0]) for _ in range(8)]
         cases.append((p, n, names, wants))
+    # directed: every algorithm named twice (adjacent, apart, three times) — each occurrence is the standard digest of the file
+    for j, a in enumerate(ALGOS):
+        other = ALGOS[(j + 5) % len(ALGOS)]
+        for names in ([a, a], [a, other, a], [other, a, a, a]):
+            n = [1, 250, B0 + 1, 2 * B0 + 1][(j + len(names)) % 4]
+            p = d / f"f{len(cases)}.bin"
+            p.write_bytes(content(n))
+            cases.append((p, n, names, [] if j % 2 else [rng.randrange(1, B0 + 1) for _ in range(4)]))
     # ---- implementation runs
     results = []
     for p, n, names, wants in cases:
@@ -129,6 +137,8 @@ def run(ctx):
         fmt = rng.choice(["fb", "npz", "tfrec"])
         k = rng.choice([1, 2, 3, 13])
         names = rng.sample(ALGOS, k) if k <= 13 else ALGOS
+        if i % 3 == 1:                      # a configured tuple may name an algorithm more than once
+            names = names + [names[0]] + (["xxh64", "sha1", "xxh64"] if i % 2 else ["xxh128", "xxh32", "xxh128"])
         root = d / f"ds{i}"
         ds = sp.mk(root, fmt=fmt, eps=2, hashes=names)
         with ds.filler() as f:
